@@ -94,3 +94,6 @@ func VerifResetAccumulators() {
 	accumuTotalCycles = nil
 	accumuAccumulatedPower = nil
 }
+
+// VerifEncodeString exposes encodeString (writer.go) for conformance checks.
+func VerifEncodeString(str string, size byte) ([]byte, error) { return encodeString(str, size) }
